@@ -167,7 +167,18 @@ def check_prettyprint(rep, prog, ascii_only):
     if not okw:
         return
     k = parts[0].args[2]
-    kind, matcher, off, no_lbrace, desc = extract_matcher(I, line, and_(*guard_conds), k)
+    try:
+        kind, matcher, off, no_lbrace, desc = extract_matcher(I, line, and_(*guard_conds), k)
+    except AnalysisError as ex_:
+        # the split position is not found by a regular expression / find() (e.g. a hand-written scanner): no language
+        # inclusion can be computed - the summary is run on a corpus of json.dumps(indent=4) texts with every kind of
+        # awkward key and value instead and compared with the documented alignment
+        bad = prettyprint_on_corpus(I, r, md)
+        rep.note("split-point idiom not a regular expression (%s): decided on a corpus of %d documents" % (str(ex_)[:80], len(_corpus())))
+        rep.check(bad is None, "C06.R3.split-point", "on a corpus of json.dumps(indent) texts (keys / values with '\":', escaped quotes, "
+                  "backslashes, braces, control characters) blanks are inserted only right after the '\":' that closes a key", where, node,
+                  bad or "", node=node)
+        return
     rep.note("split-point idiom: " + desc + (", lines containing '{' are left alone" if no_lbrace else ""))
     w = automata.search_bad_split(matcher, kind, off, require_no_lbrace=no_lbrace, ascii_only=ascii_only)
     rep.check(w is None, "C06.R3.split-point", "for every line json.dumps(indent) can emit, blanks are inserted only right after the '\":' that closes a key "
@@ -175,6 +186,52 @@ def check_prettyprint(rep, prog, ascii_only):
               "witness line %r: blanks are inserted at column %s, which is not the position right after the key's closing '\":' - a key or a "
               "string value containing '\":' is altered and the printed JSON no longer parses back to the document" % (w[0] if w else None, w[1] if w else None),
               node=node)
+
+
+def _corpus():
+    import json as _json
+    docs = [
+        {"Private Header": {"Section Version": 1, "Created by": "bmc-logging", "Empty": "", "Nested": {"a": 1}}, "List": ["x", "y: z", '"q":']},
+        {'a":b': 'v":w', 'back\\': 'slash\\', 'quote\"': 'va\"lue', "tab\tkey": "nl\nvalue", "brace{": "}close{", "colon:": ": :",
+         'esc\\"': 1, "": "empty key", " ": " ", '":': '":', 'k\\\\"': None, "u\u00e9": "\u00e9\u2028"},
+        {"long key %s" % ("x" * 40): 5, "n": -1.5e10, "t": True, "z": None, "arr": [1, [2, {"deep\":": "v"}]], "obj": {}},
+        {"SRC": {"Hex Word 2": "00080055", 'Error "Details"': {"Message": 'say "hi": ok'}}, "User Data 1": {"Data": ["00000000     41424344  \\\"ABCD"]}},
+        [], ["only", "strings\":"], "plain", {}, {"x": {}}, {"x": {"y": {"z": "w"}}},
+    ]
+    return [_json.dumps(d_, indent=4) for d_ in docs]
+
+
+def prettyprint_on_corpus(I, r, md):
+    from ..terms import evaluate, CannotEval
+    import re as _re
+    key = _re.compile(r' *"(?:[^"\\]|\\.)*":')
+
+    def ref(text, desired):
+        out = []
+        for line in text.split("\n"):
+            m = key.match(line)
+            if m and "{" not in line:
+                ind = m.end() - 2
+                line = line[:m.end()] + (desired - ind) * " " + line[m.end():]
+            out.append(line)
+        return "\n".join(out)
+    ds = Sym("desiredSpace", "int")
+    for text in _corpus():
+        for desired in (34, 29, 3):
+            env = pelx.with_heap(I, {md: text, ds: desired, Op("len", md): len(text)})
+            try:
+                got = evaluate(r, env)
+            except CannotEval as e_:
+                raise AnalysisError("prettyPrint summary not evaluable: %s" % e_)
+            except Exception as e_:
+                got = "<raises %s: %s>" % (type(e_).__name__, e_)
+            want = ref(text, desired)
+            if got != want:
+                gl, wl = str(got).split("\n"), want.split("\n")
+                i_ = next((i for i in range(max(len(gl), len(wl))) if i >= len(gl) or i >= len(wl) or gl[i] != wl[i]), 0)
+                return "the line %r is printed as %r, documented %r (desired column %d)" % (
+                    text.split("\n")[i_] if i_ < len(text.split("\n")) else None, gl[i_] if i_ < len(gl) else None, wl[i_] if i_ < len(wl) else None, desired)
+    return None
 
 
 def dumps_sites(prog):
